@@ -2,6 +2,7 @@ package props
 
 import (
 	"fmt"
+	"go/constant"
 	"go/token"
 	"go/types"
 	"sort"
@@ -332,6 +333,8 @@ func C07(p *load.Prog, r *oblig.Run) {
 	r.Rule("R07.b", "copying leaves the source untouched", 2)
 	r.Rule("R07.c", "a node is copied with its own tag, value and pointer through the kind registry", 1)
 	r.Rule("R07.d", "the family links of copied HUSB/WIFE/CHIL nodes lead to families made by the copy, never to the source's", 1)
+	r.Rule("R07.e", "DeepEqual answers true only after the numbers of children of both nodes were compared (or both found zero)", 1)
+	c07EqualShortcuts(p, r)
 	g := cg.New(p, false)
 	dc := p.MustFunc(load.PkgRoot, "DeepCopy")
 	fl := p.MustFunc(load.PkgRoot, "Filter")
@@ -633,5 +636,96 @@ func c09TypedNil(p *load.Prog, r *oblig.Run) {
 				o.OK("not nil-tested here (returned or passed on)")
 			}
 		}
+	}
+}
+
+// c07EqualShortcuts (R07.e): a shortcut in DeepEqual that answers true after looking at the children of one side
+// only makes the relation asymmetric. Every path that can answer true compares len(left.Nodes()) with
+// len(right.Nodes()) (or finds both zero).
+func c07EqualShortcuts(p *load.Prog, r *oblig.Run) {
+	fn := p.Func(load.PkgRoot, "DeepEqual")
+	o := r.Add("R07.e", "paths of DeepEqual that answer true", "-", "child counts compared before answering true")
+	if fn == nil || len(fn.Blocks) == 0 || len(fn.Params) < 2 {
+		o.Unknown("DeepEqual not found")
+		return
+	}
+	o.Pos = p.Pos(fn.Pos())
+	// len(Nodes(param k)) -> k
+	var sideOfLen func(v ssa.Value) int
+	sideOfLen = func(v ssa.Value) int {
+		c, ok := v.(*ssa.Call)
+		if !ok {
+			return -1
+		}
+		if bi, isB := c.Call.Value.(*ssa.Builtin); !isB || bi.Name() != "len" {
+			return -1
+		}
+		nc, ok := c.Call.Args[0].(*ssa.Call)
+		if !ok || !nc.Call.IsInvoke() || nc.Call.Method.Name() != "Nodes" {
+			return -1
+		}
+		for k, prm := range fn.Params {
+			if nc.Call.Value == ssa.Value(prm) {
+				return k
+			}
+		}
+		return -1
+	}
+	paths, capped := simplePaths(fn.Blocks[0], map[*ssa.BasicBlock]bool{}, 5000)
+	if capped {
+		o.Unknown("too many paths")
+		return
+	}
+	bad, n := "", 0
+	for _, path := range paths {
+		last := path[len(path)-1]
+		ret, ok := last.Instrs[len(last.Instrs)-1].(*ssa.Return)
+		if !ok || len(ret.Results) != 1 || !feasible(path) {
+			continue
+		}
+		v := ret.Results[0]
+		if ph, isPhi := v.(*ssa.Phi); isPhi && ph.Block() == last && len(path) >= 2 {
+			for i, q := range last.Preds {
+				if q == path[len(path)-2] {
+					v = ph.Edges[i]
+				}
+			}
+		}
+		if k, isK := v.(*ssa.Const); isK && (k.Value == nil || !constant.BoolVal(k.Value)) {
+			continue // answers false
+		}
+		n++
+		compared := false
+		zero := map[int]bool{}
+		for i, b := range path[:len(path)-1] {
+			iff, ok := b.Instrs[len(b.Instrs)-1].(*ssa.If)
+			if !ok {
+				continue
+			}
+			outcome := path[i+1] == b.Succs[0]
+			bo, ok := iff.Cond.(*ssa.BinOp)
+			if !ok || (bo.Op != token.EQL && bo.Op != token.NEQ) {
+				continue
+			}
+			eq := (bo.Op == token.EQL) == outcome
+			a, c := sideOfLen(bo.X), sideOfLen(bo.Y)
+			if a >= 0 && c >= 0 && a != c && eq {
+				compared = true
+			}
+			if k, isK := su.ConstInt(bo.Y); isK && k == 0 && a >= 0 && eq {
+				zero[a] = true
+			}
+		}
+		if !compared && !(zero[0] && zero[1]) {
+			bad = "a path " + pathDesc(p, path) + " can answer true without having compared len(left.Nodes()) with len(right.Nodes())"
+		}
+	}
+	switch {
+	case n == 0:
+		o.Unknown("DeepEqual never answers true")
+	case bad != "":
+		o.Fail(bad + ": a node with no children is then deep-equal to the same node with children, but not the other way round (DeepEqual(a, b) != DeepEqual(b, a))")
+	default:
+		o.OK(fmt.Sprintf("%d path(s) that can answer true, each after the child counts were compared", n))
 	}
 }
